@@ -127,6 +127,7 @@ type replayFile struct {
 	Seed      uint64   `json:"seed"`
 	Run       uint64   `json:"run"`
 	OrigTape  int      `json:"original_tape_len"`
+	Unshrunk  []uint32 `json:"unshrunk_tape,omitempty"`
 	Nondet    bool     `json:"nondeterministic,omitempty"`
 	ShrinkRun int      `json:"shrink_executions"`
 }
@@ -320,14 +321,23 @@ func (w *worker) readRaceReports() (site, text string) {
 
 const golibsPrefix = "github.com/AdguardTeam/golibs/"
 
-// RaceSite extracts the sorted pair of top-most code-under-test functions of
-// the access stacks of the first race report in text that has any.
+// RaceSite attributes the first attributable race report in text to the code
+// under test and returns the sorted pair (or single) of responsible golibs
+// functions, or "" if no report is attributable.
+//
+// An access stack is attributable if its innermost frame outside the Go
+// standard library belongs to the code under test: the access was made by
+// golibs itself or by library code that golibs called (encoding/json, slog,
+// bufio ...).  A stack whose innermost non-library frame is harness code is not
+// attributable even if golibs frames lie below it (a harness callback running
+// under a golibs caller): if neither access of a report is attributable the
+// report is a harness race, which the worker turns into a harness error.
 func RaceSite(text string) string {
 	reports := strings.Split(text, "WARNING: DATA RACE")
 	for _, rep := range reports[1:] {
 		var sites []string
 		inAccess := false
-		found := false
+		decided := false
 		for _, line := range strings.Split(rep, "\n") {
 			trim := strings.TrimSpace(line)
 			switch {
@@ -335,16 +345,23 @@ func RaceSite(text string) string {
 				strings.HasPrefix(trim, "Previous read at "), strings.HasPrefix(trim, "Previous write at "),
 				strings.HasPrefix(trim, "Atomic "), strings.HasPrefix(trim, "Previous atomic "):
 				inAccess = true
-				found = false
+				decided = false
 			case strings.HasPrefix(trim, "Goroutine "), strings.HasPrefix(trim, "======"):
 				inAccess = false
-			case inAccess && !found && strings.HasPrefix(trim, golibsPrefix):
+			case !inAccess || decided || trim == "" || strings.HasPrefix(trim, "/"):
+				// not a function line of an access stack
+			case strings.HasPrefix(trim, golibsPrefix):
 				fn := strings.TrimPrefix(trim, golibsPrefix)
 				if i := strings.LastIndex(fn, "("); i > 0 {
 					fn = fn[:i]
 				}
 				sites = append(sites, fn)
-				found = true
+				decided = true
+			case isStdFrame(trim):
+				// keep walking outwards
+			default:
+				// harness (or third-party) code made this access
+				decided = true
 			}
 		}
 		if len(sites) > 0 {
@@ -355,6 +372,23 @@ func RaceSite(text string) string {
 	}
 
 	return ""
+}
+
+// isStdFrame reports whether a function line of a stack belongs to the Go
+// standard library or runtime: its import path has no dot in the first
+// element ("encoding/json.(*Encoder).Encode()", "runtime.deferreturn()").
+func isStdFrame(fn string) bool {
+	first := fn
+	if i := strings.IndexByte(first, '/'); i >= 0 {
+		first = first[:i]
+	} else if i := strings.IndexByte(first, '.'); i >= 0 {
+		first = first[:i]
+	}
+	if first == "verif" || first == "main" {
+		return false
+	}
+
+	return !strings.Contains(first, ".")
 }
 
 // shrink minimises a failing tape with delta debugging: the same violation
@@ -470,7 +504,7 @@ func WorkerMain(t *testing.T, c *Check) {
 		w.progress = f
 		defer f.Close()
 	}
-	go w.watchdog(time.Duration(envInt("VERIF_WATCHDOG_S", 12)) * time.Second)
+	go w.watchdog(time.Duration(envInt("VERIF_WATCHDOG_S", 30)) * time.Second)
 
 	res := &workerResult{
 		Property:    c.ID,
@@ -723,6 +757,12 @@ func (w *worker) reportViolation(res *workerResult, rc *RunCtx, seed, run uint64
 		OrigTape:  len(orig),
 		Nondet:    rc.Nondet,
 		ShrinkRun: execs,
+	}
+	if v.Class == "race" || rc.Nondet {
+		// The verdict of the race detector can depend on what its bounded
+		// shadow memory still remembers; the driver falls back to the tape as
+		// found if the minimised one does not reproduce in a fresh process.
+		rf.Unshrunk = orig
 	}
 	dir := os.Getenv("VERIF_REPLAY_DIR")
 	if dir == "" {
